@@ -152,6 +152,6 @@ CHECKS['C19'] = dict(
     technique='explicit-state closure search over canonical server states with whole compliance tests as transitions + exhaustive ordered pairs + all shuffle permutations under the controlled runtime; fault-wrapper catalogue x designated tests',
     text=('Order independence: from every reachable canonical state of one long-lived reference server (contents, held operations, counters, sessions, relation of the learnt election id to the suite counter) every eligible compliance test is run and must pass; '
           'the reachable set closes (6 states), so every finite order passes by induction; independently every ordered pair of the 76 tests is run (quick: main configuration; thorough: all configurations), for starting election ids 1, 7 (thorough), 2^40 and the forward-reference-free server, '
-          'and the random-order test is run under every permutation. Sensitivity: 30 wrappers that break one protocol requirement at the gRIBI API (no FIB acks, stale-stamped / never-announced-id operations acknowledged, idempotent delete failed, Get drops an entry / is stale / tags the wrong instance, Flush no-op / wrong scope / election unchecked / no instance accepted, '
-          'election id off by one, repeated / mismatched / unsupported parameters accepted, multi-field messages accepted, results sent to every session, REPLACE of a missing entry, DELETE of a referenced entry, invalid IPv4 entry, unknown instance acknowledged, zero election id accepted, entries dropped when the primary changes, forward references / implicit replace / metadata / MPLS / IPv6 / cross-instance references rejected, lower election id honoured): every test designated for the requirement must fail.'),
+          'and the random-order test is run under every permutation. Sensitivity: 36 wrappers that break one protocol requirement at the gRIBI API (no FIB acks, stale-stamped / never-announced-id operations acknowledged, idempotent delete failed, Get drops an entry / is stale / tags the wrong instance, Flush no-op / wrong scope / election unchecked / no instance accepted, '
+          'election id off by one, repeated / mismatched / unsupported parameters accepted, multi-field messages accepted, results sent to every session, REPLACE of a missing entry, DELETE of a referenced entry, invalid IPv4 entry, unknown instance acknowledged, zero election id accepted, entries dropped when the primary changes, forward references / implicit replace / metadata / MPLS / IPv6 / cross-instance references rejected, lower election id honoured, election id accepted on an ALL_PRIMARY session, groups with several next-hops / next-hops with identical contents / IPv4 / groups rejected, DELETE of an installed entry failed): every test designated for the requirement must fail.'),
     note='Default schedule per test (interleavings inside the client are C13/C14); timeouts are virtual: "waits forever" is the livelock verdict. Alternative network-instance names are exercised in thorough only. The designation table is in harness/compl/faulty.go with its justification.')
